@@ -28,6 +28,9 @@ INTERVALS = [
     (0.0, 1e-3),
     (-1e4, 1e4),
     (2.0**-20, 1.0),
+    # length exactly 1 away from the origin (the scaling of the reference rule is the identity, the shift is not)
+    (2.0, 3.0),
+    (-4.0, -3.0),
 ]
 MMAX = {'quick': 8, 'thorough': 16}
 LEFT_TYPES = ('LOBATTO', 'RADAU-LEFT')
@@ -86,6 +89,25 @@ def evaluate(case):
     except Exception as e:  # any other exception type is not the documented way to refuse
         res['outcome'] = 'crashed'
         fail('wrong_exception', {'type': type(e).__name__, 'error': str(e)[:300]})
+        return res
+
+    # ---- construction history: the same rule built again after every other interval of the alphabet has been built for
+    # the same (family, type, M) in this process must be bitwise the same object data
+    first = {k: np.array(getattr(coll, k), dtype=float, copy=True) for k in ('nodes', 'weights', 'Qmat', 'Smat', 'delta_m')}
+    for a2, b2 in INTERVALS:
+        try:
+            CollBase(M, a2, b2, node_type=nt, quad_type=qt)
+        except Exception:  # noqa: BLE001  (judged where that member is the case)
+            pass
+    try:
+        again = CollBase(M, a, b, node_type=nt, quad_type=qt)
+        changed = [k for k, v in first.items() if not np.array_equal(np.asarray(getattr(again, k), dtype=float), v)]
+        changed += [k + '(first object modified)' for k, v in first.items() if not np.array_equal(np.asarray(getattr(coll, k), dtype=float), v)]
+    except Exception as e:  # noqa: BLE001
+        changed = [f'second construction raised {type(e).__name__}']
+    res['ncmp'] += 5
+    if changed:
+        fail('depends_on_construction_history', {'attributes': changed, 'built_in_between': [list(i) for i in INTERVALS]})
         return res
 
     nodes = np.asarray(coll.nodes)
